@@ -157,6 +157,9 @@ def merge_slices(reps):
     return res
 
 
+BASELINE_MARGIN_S = 1.5
+
+
 def run_bounded(prop, tier, out, budget=None):
     if not os.path.exists(os.path.join(ROOT, "bounded", prop.lower() + ".py")):
         return None
@@ -293,8 +296,9 @@ def main():
         if r["status"] == "undecided" and not any(o["status"] == "unknown" for o in r.get("obligations", [])):
             undecided.append(f"{r['function']}: {r.get('reason', '')[:160]}")
         for o in r.get("obligations", []):
-            d = new_baseline.setdefault(r["function"], {}).setdefault(_generic(o["name"]), {"proved": 0, "other": 0})
+            d = new_baseline.setdefault(r["function"], {}).setdefault(_generic(o["name"]), {"proved": 0, "other": 0, "max_s": 0.0})
             d["proved" if o["status"] == "proved" else "other"] += 1
+            d["max_s"] = round(max(d["max_s"], float(o.get("seconds", 0.0))), 3)
         failed = [o for o in r.get("obligations", []) if o["status"] in ("failed", "candidate")]
         for o in failed:
             key = f"{r['function']}::{o['name']}"
@@ -349,7 +353,11 @@ def main():
                                    rf, " no-failing-input-found"))
             else:
                 b = baseline.get(r["function"], {}).get(_generic(o["name"]))
-                if b is not None and b.get("other", 0) == 0 and b.get("proved", 0) > 0:
+                # only obligations that were proved COMFORTABLY on the unchanged tree (slowest instance <= BASELINE_MARGIN_S,
+                # a small fraction of every solver budget) can regress: a proof that needed most of its budget may time
+                # out on a loaded machine without any change to the code, and must stay "undecided" then
+                if b is not None and b.get("other", 0) == 0 and b.get("proved", 0) > 0 \
+                        and b.get("max_s", 1e9) <= BASELINE_MARGIN_S:
                     # the obligation is proved on every path of the unchanged tree (committed baseline) and is no
                     # longer refutable: the solver stops with a counter-model candidate that satisfies every
                     # instantiated clause - reported, without a concrete failing input
